@@ -20,6 +20,7 @@ type c09Case struct {
 
 func c09Run(c *mc.Ctx) {
 	th := c.Thorough()
+	c09SkipDecoders(c)
 	rsizes, wsizes, depth := []int{1, 100, 4097, 8193}, []int{1, 4095, 4097, 8193}, 4
 	dlens := []int{150, 8200, 20000}
 	chunks := []int{0, 1, 4097}
@@ -41,7 +42,7 @@ func c09Run(c *mc.Ctx) {
 				}
 			}
 		}
-		for _, sh := range []bytesShape{{8, 0}, {5, 3}, {10, 0}, {4096, 0}, {4000, 96}, {5000, 0}, {8192, 0}, {8000, 192}} {
+		for _, sh := range []bytesShape{{0, 8}, {0, 4096}, {1, 0}, {8, 0}, {5, 3}, {10, 0}, {100, 28}, {4096, 0}, {4000, 96}, {4097, 4095}, {5000, 0}, {8192, 0}, {8000, 192}, {8193, 8191}} {
 			if !c.Mine() {
 				continue
 			}
@@ -64,6 +65,50 @@ func c09Run(c *mc.Ctx) {
 	}
 }
 
+// c09SkipDecoders: decoder results backed by the buffered reader (valid until Release) and by the
+// io.Reader decoder's scratch buffer (valid until the next Next), with the co-tenant between operations.
+func c09SkipDecoders(c *mc.Ctx) {
+	nv := len(c02HistValues())
+	var seqs [][]int
+	for a := 0; a < nv; a++ {
+		seqs = append(seqs, []int{a})
+		for b := 0; b < nv; b++ {
+			seqs = append(seqs, []int{a, b})
+			for d := 0; d < nv; d++ {
+				seqs = append(seqs, []int{a, b, d})
+			}
+		}
+	}
+	envs := []EnvCfg{{}, {Chunk: 4097}, {Chunk: 100, ErrWithLast: true}}
+	var n int64
+	for _, dec := range []string{skDecStream, skDecBytesR, skReaderSkip} {
+		for _, seq := range seqs {
+			for _, cot := range []int{1, 2} {
+				es := envs
+				if dec == skDecBytesR {
+					es = envs[:1]
+				}
+				for _, env := range es {
+					if !c.Mine() {
+						continue
+					}
+					if c.Expired() {
+						c.Incomplete("skip-decoder histories: deadline")
+						return
+					}
+					n++
+					c02HistOne(c, c02Hist{Decoder: dec, Seq: seq, Env: env, CoTenant: cot, Prop: "C09"})
+				}
+			}
+		}
+	}
+	c.R.Transitions += n * 3
+	c.R.Traces += n * 3
+	c.R.States += n
+	c.R.Distinct += n
+	c.Done("skip-decoder results: all sequences of <= 3 Next calls over 4 values of different size classes x {SkipDecoder over stream/bytes reader, ReaderSkipDecoder} x fragmentation x co-tenant mode, twice (pool reuse); results retained until Release / the next Next")
+}
+
 func init() {
 	Register(&Check{
 		ID: "C09", Level: "model_checking",
@@ -83,6 +128,10 @@ func init() {
 				} `json:"cfg"`
 			}
 			json.Unmarshal(raw, &probe)
+			if sub == "history" {
+				replayAs(raw, func(k c02Hist) { c02HistOne(c, k) })
+				return
+			}
 			if probe.Cfg.InitCap != nil {
 				replayAs(raw, func(k c05Case) { c05Replay(c, "C09", sub, k) })
 			} else {
